@@ -120,7 +120,7 @@ def run(ctx):
     prev_pws = []
     for i in range(ctx.scale(6, 60)):
         tame = i % 4 != 3
-        pws = gen_passwords.gen_list(rng, n=rng.randint(10, 30), tame=tame)
+        pws = gen_passwords.gen_list(rng, n=rng.randint(10, 30), tame=tame, family=(True if i == 0 else None))
         if i == 0:
             # whatever the seed: strings in which one terminal occurs twice (its factor must be multiplied twice), next to
             # strings with two different terminals of the same list
@@ -128,6 +128,9 @@ def run(ctx):
                     '2019hello2019', 'hello2019', '1qaz2wsx1qaz', '<3love<3', 'love<3',
                     # context-sensitive strings of different lengths that share one probability group ('No.' is a prefix of 'No.1')
                     'xy??No.1', 'word No.', 'dr.house']
+            # the scorer's own multi-word detector at work (it needs six probability tiers in a length class): a three-word
+            # compound and, after it, strings made of its two-word tail
+            pws += gen_passwords.scorer_family()
         if not tame:
             pws += ['ǆabc1', 'ǆabc1', 'İpass', 'passİ1', 'ǅword', 'ßtrasse1']
             dist['nontame_lists'] += 1
@@ -180,6 +183,22 @@ def run(ctx):
                     again = None
                 if again != res[c]:
                     viol.append({'property': 'C13', 'kind': 'score-not-pure', 'string': c, 'witness': {'list': pws, 'string': c}})
+        # ... and a second scorer object for the same ruleset, asked in the reverse order, gives the same answers (the score is a
+        # function of the string and the ruleset, not of what the object was asked before)
+        try:
+            sc_rev = load_scorer(rd)
+            for c in reversed(order):
+                if c in res:
+                    try:
+                        again = sc_rev.parse(c)
+                    except Exception:
+                        again = None
+                    if again != res[c]:
+                        viol.append({'property': 'C13', 'kind': 'score-not-pure', 'string': c, 'first': str(res[c])[:120], 'fresh_object_reverse_order': str(again)[:120],
+                                     'witness': {'list': pws, 'string': c}})
+                        break
+        except Exception as e:
+            viol.append({'property': 'C13', 'kind': 'load-raised', 'error': repr(e)[:200], 'witness': {'list': pws}})
         for c, kind in cands.items():
             if c not in res:
                 continue
